@@ -12,10 +12,16 @@ import ast
 from ..core import AnalysisError, norm, loc, walk_no_nested, attr_chain, call_name, kwarg, find_calls, call_matches, receiver_name, assigned_from
 from ..cfg import CFG
 from ..core import func_params
-from ..normalize import inline, branch_values, merge_outcomes, Unknown, ctext, canon, local_env, expand, builders
+from ..normalize import inline, branch_values, merge_outcomes, Unknown, ctext, canon, local_env, expand, builders, eval_test, value_under, _enclosing, conjuncts
 
 DELS = 'fim.slivers.delegations'
 ARM = 'fim.graph.resources.abc_arm:ABCARMPropertyGraph'
+
+
+class _Row:
+    def __init__(self, outcome, value):
+        self.stmt = outcome.stmt
+        self.value = value
 
 
 def check_delegation_codec(prog, rep, rule):
@@ -28,20 +34,7 @@ def check_delegation_codec(prog, rep, rule):
     # ---- R2 encoder / decoder ----
     tj = delegs.methods.get('to_json')
     fj = delegs.methods.get('from_json')
-    def field_consts(fn):
-        return sorted({n.attr for n in ast.walk(fn) if isinstance(n, ast.Attribute) and
-                       (n.attr.startswith('FIELD_') or n.attr == 'SINGLE_POOL_NAME')})
-    wk, rk = field_consts(tj), field_consts(fj)
-    rep.instance(rule, f'to_json constants {wk}; from_json constants {rk}')
-    if wk != rk:
-        rep.violation(rule, loc(mod, fj), 'Delegations.from_json', f'written {wk} read {rk}',
-                      'the encoder and decoder of delegations do not use the same key constants')
     fmts = prog.enum_members(mod.classes['DelegationFormat'])
-    for f in fmts:
-        w = any(isinstance(n, ast.Compare) and f'DelegationFormat.{f}' in ast.unparse(n) for n in ast.walk(tj))
-        rep.instance(rule, f'format {f}: encoded={w}')
-        if not w:
-            rep.violation(rule, loc(mod, tj), 'Delegations.to_json', f'format {f} not encoded', f'{f} delegations are dropped on encode')
     # ---- the encoder as a table: (format, type) -> {key constant: value}, from the path-sensitive evaluation of to_json ----
     tji = inline(prog, delegs, tj)
     fji = inline(prog, delegs, fj)
@@ -74,14 +67,45 @@ def check_delegation_codec(prog, rep, rule):
         enc = merge_outcomes(branch_values(tji.body, enc_sink, follow_loops=True))
     except Unknown as u:
         raise AnalysisError(f'Delegations.to_json not analysable: {u}')
+    consts_cls = prog.cls('fim.graph.abc_property_graph_constants:ABCPropertyGraphConstants')
+    field_name_of = {}
+    for cn, ce in consts_cls.assigns.items():
+        if cn.startswith('FIELD_') or cn == 'SINGLE_POOL_NAME':
+            try:
+                field_name_of[prog.const_eval(ce, consts_cls.module, consts_cls)] = cn
+            except Exception:
+                pass
+    fold_d = lambda e_: prog.const_eval(e_, mod, delegs)
+    tenv = local_env(tji)
+    # the expressions the encoder discriminates on
+    fmt_exprs = sorted({ctext(x) for o in enc for n in o.cond_nodes for x in ast.walk(n) if isinstance(x, ast.Call) and call_name(x) == 'get_format'})
+    type_exprs = ['self.type']
+    dtypes = prog.enum_members(mod.classes['DelegationType'])
+    EM = lambda en, nm: prog.const_eval(ast.parse(f'{en}.{nm}', mode='eval').body, mod, delegs)
     table = {}
     for o in enc:
-        k = const_name(o.target)
-        f = fmt_of_conds(o.cond_nodes)
-        t = type_of_conds(o.cond_nodes)
-        if k is None or f is None:
-            continue
-        table.setdefault(f, []).append((k, t, o))
+        for f in fmts:
+            for t in dtypes:
+                bind = {fe: EM('DelegationFormat', f) for fe in fmt_exprs}
+                bind.update({te: EM('DelegationType', t) for te in type_exprs})
+                try:
+                    if not all(eval_test(canon(n), bind, fold_d) for n in o.cond_nodes
+                               if any(ctext(x) in bind for x in ast.walk(n))):
+                        continue
+                    kval = value_under(o.target, bind, fold_d, tenv)
+                except Unknown:
+                    continue
+                kname = field_name_of.get(kval)
+                if kname is None:
+                    continue
+                v = o.value
+                try:
+                    vv = value_under(v, bind, fold_d)
+                    if vv in field_name_of:
+                        v = ast.Attribute(value=ast.Name(id='ABCPropertyGraphConstants', ctx=ast.Load()), attr=field_name_of[vv], ctx=ast.Load())
+                except Unknown:
+                    pass
+                table.setdefault(f, []).append((kname, t, _Row(o, v)))
     want = {'SinglePool': {'FIELD_POOL_ID', 'FIELD_CAPACITIES', 'FIELD_LABELS'},
             'PoolDefinition': {'FIELD_POOL_ID', 'FIELD_CAPACITIES', 'FIELD_LABELS'},
             'PoolReference': {'FIELD_POOL'}}
@@ -111,6 +135,12 @@ def check_delegation_codec(prog, rep, rule):
                                   'CAPACITY delegations must use the capacities field and LABEL delegations the labels field')
                 if not is_call_on_entry(v, 'get_details_as_dict'):
                     rep.violation(rule, loc(mod, o.stmt), 'Delegations.to_json', f'{k} written as {ctext(v)}', 'the details of the entry are lost')
+    written_consts = {k for rows in table.values() for k, t, o in rows} | {const_name(o.value) for rows in table.values() for k, t, o in rows if const_name(o.value)}
+    read_consts = {n.attr for n in ast.walk(fji) if isinstance(n, ast.Attribute) and (n.attr.startswith('FIELD_') or n.attr == 'SINGLE_POOL_NAME')}
+    rep.instance(rule, f'to_json constants {sorted(written_consts)}; from_json constants {sorted(read_consts)}')
+    if written_consts != read_consts:
+        rep.violation(rule, loc(mod, fj), 'Delegations.from_json', f'written {sorted(written_consts)} read {sorted(read_consts)}',
+                      'the encoder and decoder of delegations do not use the same key constants')
     # ---- the decoder as a table: per entry, (format, pool id, details) decided within the iteration ----
     dloops = [l for l in walk_no_nested(fji) if isinstance(l, ast.For) and any(isinstance(c, ast.Call) and call_name(c) == 'Delegation' for c in ast.walk(l))]
     if len(dloops) != 1:
@@ -346,9 +376,47 @@ def run(prog, rep):
     checks.append(('definition details come from the pool',
                    len(sd) == 1 and sd[0].args and isinstance(sd[0].args[0], ast.Call) and call_name(sd[0].args[0]) == 'get_pool_details'
                    and receiver_name(sd[0].args[0]) == pool_var and (ref_loop is None or not any(x is sd[0] for x in ast.walk(ref_loop)))))
-    on = [n for n in ast.walk(pool_loops[0]) if isinstance(n, ast.Assign) and isinstance(n.value, ast.Call) and call_name(n.value) == 'get_defined_on'
-          and receiver_name(n.value) == pool_var]
-    checks.append(('definition is placed on the node the pool is defined on', len(on) == 1 and (ref_loop is None or on[0].lineno < ref_loop.lineno)))
+    # where each entry goes: the receiver of add_delegations, evaluated per path (present / absent in the result dictionary)
+    gen_rets = [r.value.id for r in walk_no_nested(gen) if isinstance(r, ast.Return) and isinstance(r.value, ast.Name)]
+    retv = gen_rets[-1] if gen_rets else None
+
+    def add_sink(st):
+        if isinstance(st, ast.Expr) and isinstance(st.value, ast.Call) and call_name(st.value) == 'add_delegations' and st.value.args:
+            return (st.value.func.value, st.value.args[0])
+        return None
+    try:
+        aouts = branch_values(pool_loops[0].body, add_sink, follow_loops=True, opaque=(retv,) if retv else ())
+    except Unknown as u:
+        raise AnalysisError(f'generate_delegations_by_node_id not analysable: {u}')
+    def_ok = False
+    for o in aouts:
+        is_def = any(isinstance(c, ast.Call) and call_name(c) == 'Delegation' and fmt_of(c) == 'PoolDefinition' for c in ast.walk(o.value)) if o.value is not None else False
+        recv = o.target
+        keyed_on = [c for c in ast.walk(recv) if isinstance(c, ast.Call) and call_name(c) == 'get_defined_on' and receiver_name(c) == pool_var] + \
+                   [n for n in o.cond_nodes for c in ast.walk(n) if isinstance(c, ast.Call) and call_name(c) == 'get_defined_on' and receiver_name(c) == pool_var]
+        if is_def and keyed_on:
+            def_ok = True
+    checks.append(('definition is placed on the node the pool is defined on', def_ok))
+    # get-or-create: a fresh Delegations object is stored into the result only for a node that has none yet
+    goc_ok = True
+    if retv:
+        def store_sink(st):
+            if isinstance(st, ast.Assign) and len(st.targets) == 1 and isinstance(st.targets[0], ast.Subscript) and \
+                    isinstance(st.targets[0].value, ast.Name) and st.targets[0].value.id == retv:
+                return (st.targets[0].slice, st.value)
+            return None
+        try:
+            souts = branch_values(pool_loops[0].body, store_sink, follow_loops=True, opaque=(retv,))
+        except Unknown as u:
+            raise AnalysisError(f'generate_delegations_by_node_id not analysable: {u}')
+        for o in souts:
+            if not (isinstance(o.value, ast.Call) and call_name(o.value) == 'Delegations'):
+                continue
+            key_txt = ctext(o.target)
+            rep.instance('R3', f'generate_delegations_by_node_id: {retv}[{key_txt}] created under {sorted(set(o.conds))[-3:]}')
+            if f'{key_txt} not in {retv}' not in o.conds:
+                goc_ok = False
+    checks.append(('a per-node Delegations object is created only for a node that has none yet (get-or-create)', goc_ok))
     adds = find_calls(pool_loops[0], 'add_delegations', nested=True)
     checks.append(('definition and references are added to the per-node delegations', len(adds) >= 2))
     for what, ok in checks:
@@ -440,16 +508,27 @@ def run(prog, rep):
     if not raises or not writes or max(raises) > min(writes):
         rep.violation('R3', loc(arm.module, an), 'ABCARMPropertyGraph.annotate_delegations_and_pools', 'conflict check does not precede all writes',
                       'a node that has both a pool entry and a single delegation must be rejected before any property is written')
-    atxt = ast.unparse(an)
-    if 'PROP_CAPACITY_DELEGATIONS' not in atxt or 'PROP_LABEL_DELEGATIONS' not in atxt or 'DelegationType.CAPACITY' not in atxt:
-        rep.violation('R3', loc(arm.module, an), 'ABCARMPropertyGraph.annotate_delegations_and_pools', 'type/property pairing',
-                      'capacity delegations must be written to CapacityDelegations and label delegations to LabelDelegations')
-    else:
-        for n in ast.walk(an):
-            if isinstance(n, ast.If) and 'DelegationType.CAPACITY' in ast.unparse(n.test) and isinstance(n.test.ops[0], ast.Eq):
-                if 'PROP_CAPACITY_DELEGATIONS' not in ast.unparse(n.body) or 'PROP_LABEL_DELEGATIONS' not in ast.unparse(n.orelse):
-                    rep.violation('R3', loc(arm.module, n), 'ABCARMPropertyGraph.annotate_delegations_and_pools', 'type/property pairing crossed',
-                                  'capacity delegations must be written to CapacityDelegations and label delegations to LabelDelegations')
+    ani = inline(prog, arm, an)
+    aenv_ = local_env(ani)
+    fold_a = lambda e_: prog.const_eval(e_, arm.module, arm)
+    dt_exprs = sorted({ctext(x) for x in ast.walk(ani) if isinstance(x, ast.Call) and call_name(x) == 'get_type'})
+    want_prop = {'CAPACITY': 'CapacityDelegations', 'LABEL': 'LabelDelegations'}
+    wcalls = [c for c in ast.walk(ani) if isinstance(c, ast.Call) and call_name(c) == 'update_node_property']
+    for tname, wprop in want_prop.items():
+        bind = {te: prog.const_eval(ast.parse(f'DelegationType.{tname}', mode='eval').body, mod, delegs) for te in dt_exprs}
+        got = set()
+        for c in wcalls:
+            _, conds_ = _enclosing(c, ani)
+            try:
+                if not all(eval_test(canon(expand(n, aenv_)), bind, fold_a) for n in conds_ if any(ctext(x) in bind for x in ast.walk(expand(n, aenv_)))):
+                    continue
+                got.add(value_under(kwarg(c, 'prop_name'), bind, fold_a, aenv_, ani))
+            except Unknown:
+                got.add('?')
+        rep.instance('R3', f'annotate_delegations_and_pools: {tname} delegations written to {sorted(str(g) for g in got)}')
+        if got != {wprop}:
+            rep.violation('R3', loc(arm.module, an), 'ABCARMPropertyGraph.annotate_delegations_and_pools', f'type/property pairing: {tname} -> {sorted(str(g) for g in got)}',
+                          'capacity delegations must be written to CapacityDelegations and label delegations to LabelDelegations')
 
 
 DF = 'fim/slivers/delegations.py'
